@@ -807,12 +807,40 @@ def c17(run):
                     pass
             if os.path.isfile(nobj) and not os.path.isfile(nref):
                 os.remove(nobj)
+            valid = METHODS[meth][0]
+            sizepos = {"store_object": 5, "delete_if_invalid_object": 3}.get(meth)
+            ckpos = {"store_object": 3, "delete_if_invalid_object": 1}.get(meth)
             # documented classes for the documented conditions
             want = None
             if meth in ("retrieve_object", "delete_object", "get_hex_digest") and v[0] in (S("unknown-pid"), S("meta-only-pid")):
                 want = "PidRefsDoesNotExist"
             if want and gi != want:
                 run.violation({"kind": "class", "method": meth}, "%s on an unknown pid raised %s, documented class is %s" % (meth, gi, want), {"method": meth, "args": v})
+            # exactly ONE argument invalid (all others as in the valid call): the documented class for that kind of invalid value,
+            # and nothing touched.  (None / empty / whitespace-containing identifier, checksum, algorithm -> ValueError; whitespace
+            # judged by str.isspace, so U+00A0, U+2028, 0x1c.. count; size of another type -> TypeError, < 1 -> ValueError)
+            diff = [i for i in range(len(v)) if v[i] != valid[i]] if len(v) == len(valid) else []
+            if len(diff) == 1:
+                i1, b1 = diff[0], v[diff[0]]
+                want1 = None
+                if b1 in bad_str and not (meth == "store_object" and i1 in (0, 2) and b1 == "N") and i1 in strpos:
+                    want1 = "ValueError"
+                if meth == "store_object" and i1 == 2 and b1 in bad_str:
+                    want1 = None                      # the additional algorithm is cleaned, not string-checked
+                if b1 in bad_size and i1 == sizepos:
+                    want1 = "ValueError" if b1 in ("I0", "I-1", "U") else "TypeError"
+                if want1 and (gi != want1 or changed):
+                    run.violation({"kind": "single-invalid", "method": meth, "pos": i1, "class": gi},
+                                  "%s with one invalid argument (position %d = %s) -> %s%s; documented: %s, store unchanged" % (
+                                      meth, i1, b1[:24], gi, " and the store changed" if changed else "", want1), {"method": meth, "args": v, "outcome": gi})
+            if meth == "store_object" and len(v) == 6 and v[0] == valid[0] and v[1] == valid[1] and v[5] == "N" and v[2] == "N":
+                # checksum and checksum_algorithm go together: one without the other (None or blank) is a ValueError
+                ck_given, al_given = v[3] != "N", v[4] != "N"
+                blank = lambda t: t in ("N", S(""), S(" "))
+                if (ck_given != al_given and (blank(v[3]) or blank(v[4]))) and (gi != "ValueError" or changed):
+                    run.violation({"kind": "pairing", "method": meth, "class": gi},
+                                  "store_object with checksum=%s and checksum_algorithm=%s -> %s%s; documented: ValueError, store unchanged" % (
+                                      v[3][:12], v[4][:12], gi, " and the store changed" if changed else ""), {"method": meth, "args": v, "outcome": gi})
             # an unsupported data type (or a blank string) with a valid pid: TypeError, nothing touched
             datapos = {"store_object": 1, "store_metadata": 1}.get(meth)
             if datapos is not None and v[datapos] in bad_data and v[0] == METHODS[meth][0][0]:
@@ -822,9 +850,6 @@ def c17(run):
                                       meth, v[datapos], gi, " and the store changed" if changed else ""), {"method": meth, "args": v, "outcome": gi})
             # an unsupported algorithm name, all other arguments well-formed (possibly mismatching the content): UnsupportedAlgorithm, nothing touched
             algpos = {"store_object": [2, 4], "delete_if_invalid_object": [2], "get_hex_digest": [1]}.get(meth, [])
-            valid = METHODS[meth][0]
-            sizepos = {"store_object": 5, "delete_if_invalid_object": 3}.get(meth)
-            ckpos = {"store_object": 3, "delete_if_invalid_object": 1}.get(meth)
             wellformed = all(v[i] == valid[i]
                              or (i == sizepos and v[i][0] == "I" and int(v[i][1:]) >= 1)
                              or (i == ckpos and v[i][0] == "S" and len(v[i]) > 20)
